@@ -345,6 +345,65 @@ Fixpoint seq_run (f : forest) (w : world) (h : list (Z * request * Z)) : world *
       (w'', o :: os)
   end.
 
+(* ---------------------------------------------------------------- one clock reading per level
+
+   fixedWindow.Inc reads the clock once per level of the chain (inside each
+   quota object's AtomicIncWindow), not once per walk.  [inc_chain_t] is the
+   same walk with the reading [now] for this level and the readings [later]
+   for the levels above, in order; when [later] is exhausted the clock has
+   stopped advancing ([hd now later] = the previous reading).
+   [inc_chain ch w rq now] is [inc_chain_t ch w rq now []]. *)
+Fixpoint inc_chain_t (ch : list (Z * quota)) (w : world) (rq : request) (now : Z) (later : list Z) : world :=
+  match ch with
+  | [] => w
+  | (q, d) :: up =>
+      let '(w', res) := do_kinc d (key_of q d rq) w rq now in
+      match res with
+      | Increased => inc_chain_t up w' rq (hd now later) (tl later)
+      | _ => w'
+      end
+  end.
+
+(* every key of the chain with the clock reading of its own level *)
+Fixpoint with_times (ch : list (Z * quota)) (now : Z) (later : list Z) : list ((Z * quota) * Z) :=
+  match ch with
+  | [] => []
+  | qd :: up => (qd, now) :: with_times up (hd now later) (tl later)
+  end.
+
+(* one request handled alone by the engine, with per-level clock readings *)
+Definition treq := (Z * request * Z * list Z)%type.
+Definition seq_step_t (f : forest) (w : world) (x : treq) : world * out :=
+  let '(q, rq, now, later) := x in
+  match chain_of f q with
+  | Some ch =>
+      let w1 := inc_chain_t ch w rq now later in
+      let '(w2, b) := allowed_chain ch w1 rq in
+      if b then (w2, OBool true) else (dec_chain ch w2 rq, OBool false)
+  | None => (w, OBad)
+  end.
+
+Fixpoint seq_run_t (f : forest) (w : world) (h : list treq) : world * list out :=
+  match h with
+  | [] => (w, [])
+  | x :: rest =>
+      let '(w', o) := seq_step_t f w x in
+      let '(w'', os) := seq_run_t f w' rest in
+      (w'', o :: os)
+  end.
+
+(* the readings of one request do not decrease, and requests follow each other in time *)
+Fixpoint mono (clk : Z) (l : list Z) : Prop :=
+  match l with
+  | [] => True
+  | t :: r => clk <= t /\ mono t r
+  end.
+Fixpoint seq_clock_ok_t (clk : Z) (h : list treq) : Prop :=
+  match h with
+  | [] => True
+  | (_, _, now, later) :: rest => mono clk (now :: later) /\ seq_clock_ok_t (last later now) rest
+  end.
+
 (* sums over the ghost logs *)
 Fixpoint csum (k : key) (s : Z) (l : list charge) : Z :=
   match l with
@@ -395,6 +454,74 @@ Definition no_phantom (w : world) (rq : request) (qd : Z * quota) : bool :=
   | None => true
   end.
 
+(* ---------------------------------------------------------------- F-C01, history-based
+
+   What a request handled alone charges: the keys of its chain, each at the
+   reading of its own level, up to (not including) the first key without room.
+   When the request is refused, these charges - on the keys BELOW the key that
+   refused it - stay booked although the request was not let through:
+   [phantoms] collects them along a one-at-a-time history (newest first). *)
+Definition has_room_at (w : world) (rq : request) (qt : (Z * quota) * Z) : bool :=
+  has_room w rq (snd qt) (fst qt).
+Definition pass_full_at (w : world) (rq : request) (qt : (Z * quota) * Z) : bool :=
+  pass_full w rq (snd qt) (fst qt).
+
+(* the window a charge made now is booked on *)
+Definition stored_after (w : world) (rq : request) (qt : (Z * quota) * Z) : Z :=
+  let d := snd (fst qt) in
+  let ks := st w (key_of (fst (fst qt)) d rq) in
+  if expired (q_win d) ks (snd qt) then snd qt / sec
+  else match ws ks with Some s => s | None => snd qt / sec end.
+
+Definition walk_charge (w : world) (rq : request) (qt : (Z * quota) * Z) : charge :=
+  {| c_key := key_of (fst (fst qt)) (snd (fst qt)) rq; c_ws := stored_after w rq qt;
+     c_at := snd qt; c_req := r_id rq; c_cost := cost_of (snd (fst qt)) rq |}.
+
+Fixpoint walk_charges (w : world) (rq : request) (l : list ((Z * quota) * Z)) : list charge :=
+  match l with
+  | [] => []
+  | qt :: up => if has_room_at w rq qt then walk_charge w rq qt :: walk_charges w rq up else []
+  end.
+
+Definition refused_charges (f : forest) (w : world) (x : treq) : list charge :=
+  let '(q, rq, now, later) := x in
+  match chain_of f q with
+  | Some ch =>
+      let l := with_times ch now later in
+      if forallb (has_room_at w rq) l then [] else walk_charges w rq l
+  | None => []
+  end.
+
+Fixpoint phantoms (f : forest) (w : world) (h : list treq) : list charge :=
+  match h with
+  | [] => []
+  | x :: rest => phantoms f (fst (seq_step_t f w x)) rest ++ refused_charges f w x
+  end.
+
+(* what the phantom charges P add to the stored window of a key, at instant now *)
+Definition eff_phantom (P : list charge) (w : world) (rq : request) (now : Z) (qd : Z * quota) : Z :=
+  let d := snd qd in
+  let k := key_of (fst qd) d rq in
+  if expired (q_win d) (st w k) now then 0
+  else match ws (st w k) with Some s => csum k s P | None => 0 end.
+
+(* full once the phantom charges are added to the requests let through *)
+Definition full_with_phantoms (P : list charge) (w : world) (rq : request) (now : Z) (qd : Z * quota) : bool :=
+  q_max (snd qd) <? eff_pass w rq now qd + eff_phantom P w rq now qd + cost_of (snd qd) rq.
+(* the finding's situation on one key: not full of requests let through, full with the phantoms *)
+Definition phantom_fills (P : list charge) (w : world) (rq : request) (now : Z) (qd : Z * quota) : bool :=
+  full_with_phantoms P w rq now qd && negb (pass_full w rq now qd).
+Definition full_with_phantoms_at P w rq (qt : (Z * quota) * Z) := full_with_phantoms P w rq (snd qt) (fst qt).
+Definition phantom_fills_at P w rq (qt : (Z * quota) * Z) := phantom_fills P w rq (snd qt) (fst qt).
+Definition eff_phantom_at P w rq (qt : (Z * quota) * Z) := eff_phantom P w rq (snd qt) (fst qt).
+(* side condition of the two-sided F-C01 theorem on one key: not filled by
+   phantoms, and the phantoms of its window do not sum to a negative cost *)
+Definition outside_decisive_phantom P w rq (qt : (Z * quota) * Z) : bool :=
+  negb (phantom_fills_at P w rq qt) && (0 <=? eff_phantom_at P w rq qt).
+
+(* a one-at-a-time history with one reading per request, as one with per-level readings *)
+Definition lift_h (h : list (Z * request * Z)) : list treq := map (fun x => (x, [])) h.
+
 (* ---------------------------------------------------------------- correspondence *)
 
 Definition mkq (mx wsec : Z) (parent group : option Z) (custom : bool) : quota :=
@@ -436,4 +563,14 @@ Definition run_eng (k : case_eng) : option (list out) :=
   if negb (wf_forest f) then Some [OBad]
   else
     let m := snd (seq_run f init h) in
+    if outs_eqb m (map OBool obs) then None else Some m.
+
+(* eng suite with one clock reading per level of the chain: (quota, request,
+   reading of the first level, readings of the levels above) *)
+Definition case_engt := (forest * list treq * list bool)%type.
+Definition run_engt (k : case_engt) : option (list out) :=
+  let '(f, h, obs) := k in
+  if negb (wf_forest f) then Some [OBad]
+  else
+    let m := snd (seq_run_t f init h) in
     if outs_eqb m (map OBool obs) then None else Some m.
